@@ -556,7 +556,17 @@ def run(case):
     it = fedjax.RepeatableIterator(_repeat_base(case['base'], n))
     conv = lambda v: ord(v) - 48 if isinstance(v, str) else int(v)
     parts, prim, trace, iter_ok = [], [], [], True
+    limit = 4 * n + 8        # a pass never has more than n items: a longer one is a runaway iterator
+
+    def bounded(iterable):
+      for j, v in enumerate(iterable):
+        if j >= limit:
+          raise OverflowError('runaway')
+        yield v
+    runaway = False
     for op in case['ops']:
+      if runaway:
+        break
       if op[0] == 'N':        # next(it)
         prim.append(True)
         try:
@@ -581,14 +591,22 @@ def run(case):
           if len(got) == op[1]:
             broke = True
             break
-        prim += [False] + [True] * (len(got) + (0 if broke else 1))
-        trace += got + ([] if broke else [None])
+          if len(got) > limit:
+            runaway = True
+            break
+        prim += [False] + [True] * (len(got) + (0 if broke or runaway else 1))
+        trace += got + ([] if broke or runaway else [None])
       else:                   # list(it): iter(it), then next() until StopIteration
-        got = [conv(v) for v in it]
-        prim += [False] + [True] * (len(got) + 1)
-        trace += got + [None]
+        got = []
+        try:
+          for v in bounded(it):
+            got.append(conv(v))
+        except OverflowError:
+          runaway = True
+        prim += [False] + [True] * (len(got) + (0 if runaway else 1))
+        trace += got + ([] if runaway else [None])
       parts.append(got)
-    return {'parts': parts, 'prim': prim, 'trace': trace, 'iter_is_self': iter_ok}
+    return {'parts': parts, 'prim': prim, 'trace': trace, 'iter_is_self': iter_ok, 'runaway': runaway}
   if kind == 'repeat':
     n = case['n']
     base = [lambda: list(range(n)), lambda: tuple(range(n)), lambda: {k: -k for k in range(n)},
@@ -805,6 +823,8 @@ def oracle(case, obs):
     n = case['n']
     cyc = list(range(n)) + [None]
     want = [cyc[j % (n + 1)] for j in range(len(obs['trace']))]
+    if obs.get('runaway'):
+      out.append(('repeat-runaway', f'a pass over a base of {n} items did not end within {4 * n + 8} items'))
     if obs['trace'] != want:
       out.append(('repeat-split-pass', f'a pass consumed in pieces {obs["parts"]} (ops {case["ops"]}) is not the first pass '
                   f'{list(range(n))} replayed: an iter() call in the middle of a pass changed what next() returns'))
